@@ -65,6 +65,7 @@ var Opts = session.Opts{
 		HeartbeatBuilder:     fixgen.Heartbeat{}.New(),
 		TestRequestBuilder:   fixgen.TestRequest{}.New(),
 		ResendRequestBuilder: fixgen.ResendRequest{}.New(),
+		SequenceResetBuilder: fixgen.SequenceReset{}.New(), // optional; tells the session what a SequenceReset is
 	},
 	Tags:                    &messages.Tags{MsgType: 35, MsgSeqNum: 34, HeartBtInt: 108, EncryptedMethod: 98},
 	AllowedEncryptedMethods: map[string]struct{}{"0": {}},
